@@ -136,6 +136,22 @@ fn one<const D: usize>(c: &Value) -> Value {
     };
     let mut cb2 = Vec::new();
     ciborium::ser::into_writer(&from_cbor, &mut cb2).unwrap();
+    // a third self-describing format: value tree with structs as positional sequences (as MessagePack's compact mode)
+    let tree = match crate::valfmt::to_value(&s, false) {
+        Ok(t) => t,
+        Err(e) => return json!({ "restore_err": format!("valfmt(compact) serialise: {}", e.0), "json_text": before, "results": results, "fresh": fresh, "sampler_unchanged": before == after }),
+    };
+    let from_compact: SampleGenerator<D> = match crate::valfmt::from_value(tree.clone()) {
+        Ok(x) => x,
+        Err(e) => return json!({ "restore_err": format!("valfmt(compact, structs as sequences): {}", e.0), "json_text": before, "results": results, "fresh": fresh, "sampler_unchanged": before == after }),
+    };
+    let compact_identical = match crate::valfmt::to_value(&from_compact, false) {
+        Ok(t2) => format!("{:?}", t2) == format!("{:?}", tree),
+        Err(_) => false,
+    };
+    let restored_compact: Vec<Value> = c["ops"].as_array().unwrap().iter().map(|op| {
+        let op2 = op.clone(); let sr = &from_compact;
+        guarded(std::panic::AssertUnwindSafe(move || call(sr, &op2))) }).collect();
     let restored_json: Vec<Value> = c["ops"].as_array().unwrap().iter().map(|op| {
         let op2 = op.clone(); let sr = &from_json;
         guarded(std::panic::AssertUnwindSafe(move || call(sr, &op2))) }).collect();
@@ -149,9 +165,10 @@ fn one<const D: usize>(c: &Value) -> Value {
         "json_text": before.clone(),
         "json_roundtrip_identical": serde_json::to_string(&from_json).unwrap() == before,
         "cbor_roundtrip_identical": cb == cb2,
-        "restored_json": restored_json, "restored_cbor": restored_cbor,
-        "restored_dimension": [from_json.get_dimension(), from_cbor.get_dimension(), s.get_dimension()],
-        "restored_dod": [b(from_json.get_dod()), b(from_cbor.get_dod()), b(s.get_dod())],
+        "restored_json": restored_json, "restored_cbor": restored_cbor, "restored_compact": restored_compact,
+        "compact_roundtrip_identical": compact_identical,
+        "restored_dimension": [from_json.get_dimension(), from_cbor.get_dimension(), s.get_dimension(), from_compact.get_dimension()],
+        "restored_dod": [b(from_json.get_dod()), b(from_cbor.get_dod()), b(s.get_dod()), b(from_compact.get_dod())],
     })
 }
 
